@@ -184,6 +184,8 @@ def describe(e, detail):
         return "memo bytes %s: MemoBytes::from_bytes %s, as_slice %s, Memo::from_bytes %s, base64 %r/%s; specification: %s" % (
             e["in"]["hex"][:80], e["mb"], bytes(e["sl"]).hex()[:80], e["kind"], bytes(e["b64"]).decode("latin1")[:60],
             e["b64back"], exp)
+    if e["ev"] == "any":
+        return "from_uri on a generated string %s (%d bytes) -> %s; specification: %s" % (json.dumps(e["in"]), e["len"], e["res"], exp)
     return "%s %s -> %s; specification: %s" % (e["ev"], json.dumps(e["in"]), e.get("res"), exp)
 
 
@@ -271,7 +273,7 @@ def run(ctx):
         raise lib.ToolError("driver trace is incomplete")
     recs = recs[:-1]
     per = summary["per_event"]
-    if any(per.get(k, 0) == 0 for k in ("uri", "rt", "pnew", "tnew", "fidx", "memo")) \
+    if any(per.get(k, 0) == 0 for k in ("uri", "rt", "pnew", "tnew", "fidx", "memo", "any")) \
             or per["rt"] != sizes[0] or len(summary["uri_outcomes"]) < 2:
         raise lib.ToolError("vacuity: the driver did not produce every kind of observation: %s" % summary)
     accepted = judge(ctx, d, extra_recs + recs, "run", ctx.seed)
